@@ -3,7 +3,7 @@ from __future__ import annotations
 
 import ast
 
-from ..project import call_name, norm, walk_no_nested
+from ..project import enclosing_function, call_name, norm, walk_no_nested
 from ..roles import CONSTRAINTS, MARSHAL
 
 
@@ -266,3 +266,55 @@ def locate_function(project, module, name):
         if f is not None:
             return r[0], f
     return None, None
+
+
+def late_binding_closures(run, project, rule, modules, what):
+    """a lambda / nested function created in a loop or comprehension that reads the loop variable but is only CALLED later
+    (stored, collected, handed to a lazy consumer such as iter(callable, sentinel)): by then the variable holds the value of
+    the last iteration - every closure sees the last element.  Not flagged: a closure that binds the variable as a default
+    argument, one that is called on the spot, and `key=` functions (called before the iteration goes on)."""
+    n = 0
+    for modname in modules:
+        if not project.has_module(modname):
+            continue
+        mod = project.module(modname)
+        for node in ast.walk(mod.tree):
+            if isinstance(node, (ast.ListComp, ast.SetComp, ast.GeneratorExp, ast.DictComp)):
+                targets = {x.id for g in node.generators for x in ast.walk(g.target) if isinstance(x, ast.Name)}
+                bodies = [node.elt] if not isinstance(node, ast.DictComp) else [node.key, node.value]
+                lazy = isinstance(node, ast.GeneratorExp)
+            elif isinstance(node, ast.For):
+                targets = {x.id for x in ast.walk(node.target) if isinstance(x, ast.Name)}
+                bodies = list(node.body)
+                lazy = False
+            else:
+                continue
+            for b in bodies:
+                parents = {}
+                for x in ast.walk(b):
+                    for c in ast.iter_child_nodes(x):
+                        parents[id(c)] = x
+                for f in ast.walk(b):
+                    if not isinstance(f, (ast.Lambda, ast.FunctionDef)):
+                        continue
+                    own = {a.arg for a in f.args.args + f.args.kwonlyargs + f.args.posonlyargs} | \
+                        ({f.args.vararg.arg} if f.args.vararg else set()) | ({f.args.kwarg.arg} if f.args.kwarg else set())
+                    inner = f.body if isinstance(f.body, list) else [f.body]
+                    free = {x.id for st in inner for x in ast.walk(st) if isinstance(x, ast.Name) and isinstance(x.ctx, ast.Load)} - own
+                    captured = sorted(free & targets)
+                    if not captured:
+                        continue
+                    par = parents.get(id(f))
+                    if isinstance(par, ast.Call) and par.func is f:
+                        continue   # called on the spot
+                    if isinstance(par, ast.keyword) and par.arg == "key":
+                        continue   # a sort / min / max key: used before the iteration goes on
+                    n += 1
+                    run.ob(rule, False, f"{modname.split('.')[-1]} L{f.lineno}: closure over a loop variable",
+                           f"the function created at line {f.lineno} reads the loop variable{'s' if len(captured) > 1 else ''} "
+                           f"{', '.join('`' + c + '`' for c in captured)} when it is CALLED, not when it is created: every closure made by "
+                           f"this loop sees the last element ({what})", module=mod, node=f,
+                           func=getattr(enclosing_function(f), "name", "<module>") if enclosing_function(f) is not None else "<module>",
+                           construct=f"late-binding closure over {', '.join(captured)}")
+    if not n:
+        run.ob(rule, True, "no closure created in a loop reads the loop variable late")
